@@ -517,3 +517,228 @@ Proof.
   intros H. unfold spearman_footrule.
   destruct (Nat.eqb_spec (length o1) (length o2)); [contradiction|reflexivity].
 Qed.
+
+(* ------------------------------------------------------------------------------------------ *)
+(** * Sertel *)
+
+Lemma first_diff_sym o1 : forall o2, first_diff o1 o2 = first_diff o2 o1.
+Proof.
+  induction o1 as [|x xs IH]; intros [|y ys]; try reflexivity.
+  cbn [first_diff]. rewrite (N.eqb_sym y x), IH. reflexivity.
+Qed.
+
+Lemma first_diff_refl o : first_diff o o = None.
+Proof. induction o as [|x xs IH]; [reflexivity|]. cbn [first_diff]. rewrite N.eqb_refl, IH. reflexivity. Qed.
+
+Lemma first_diff_None o1 : forall o2, length o1 = length o2 -> first_diff o1 o2 = None -> o1 = o2.
+Proof.
+  induction o1 as [|x xs IH]; intros [|y ys] Hl H; try discriminate; [reflexivity|].
+  cbn [first_diff] in H. destruct (N.eqb_spec x y) as [->|Hne]; [|discriminate].
+  f_equal. apply IH; [cbn in Hl; lia|]. destruct (first_diff xs ys); [discriminate|reflexivity].
+Qed.
+
+(* meaning of [first_diff]: the two lists agree before position j and differ at j *)
+Lemma first_diff_Some o1 : forall o2 j, first_diff o1 o2 = Some j ->
+  j < length o1 /\ j < length o2 /\ firstn j o1 = firstn j o2 /\ nth j o1 0%N <> nth j o2 0%N.
+Proof.
+  induction o1 as [|x xs IH]; intros [|y ys] j H; try discriminate.
+  cbn [first_diff] in H. destruct (N.eqb_spec x y) as [->|Hne].
+  - destruct (first_diff xs ys) as [j'|] eqn:E; [|discriminate].
+    injection H as <-. destruct (IH ys j' E) as (A & B & C & Dn).
+    cbn [length firstn nth]. split; [lia|]. split; [lia|]. split; [f_equal; exact C|exact Dn].
+  - injection H as <-. cbn [length firstn nth]. split; [lia|]. split; [lia|]. split; [reflexivity|exact Hne].
+Qed.
+
+Lemma first_diff_last o1 : forall o2 j, first_diff o1 o2 = Some j -> S j = length o1 ->
+  ~ Permutation o1 o2.
+Proof.
+  induction o1 as [|x xs IH]; intros [|y ys] j H Hl Hp; try discriminate.
+  cbn [first_diff] in H. destruct (N.eqb_spec x y) as [->|Hne].
+  - destruct (first_diff xs ys) as [j'|] eqn:E; [|discriminate].
+    injection H as <-. apply (IH ys j' E); [cbn in Hl; lia|].
+    eapply Permutation_cons_inv; exact Hp.
+  - injection H as <-. destruct xs; [|discriminate].
+    pose proof (Permutation_length Hp) as Hlen. destruct ys; [|discriminate].
+    apply Permutation_length_1 in Hp. contradiction.
+Qed.
+
+Lemma sertel_j_sym o1 o2 : length o1 = length o2 -> sertel_j o1 o2 = sertel_j o2 o1.
+Proof. intros Hl. unfold sertel_j. rewrite (first_diff_sym o1 o2), Hl. reflexivity. Qed.
+
+(* the subtraction len - 1 - j of the code never goes below 0 *)
+Lemma sertel_j_le o1 o2 : sertel_j o1 o2 <= length o1 - 1.
+Proof.
+  unfold sertel_j. destruct (first_diff o1 o2) as [j|] eqn:E; [|apply le_n].
+  apply first_diff_Some in E. lia.
+Qed.
+
+Lemma sertel_ok o1 o2 : length o1 = length o2 ->
+  sertel o1 o2 = Ok (length o1 - 1 - sertel_j o1 o2, length o1 - 1).
+Proof. intros Hl. unfold sertel. rewrite (proj2 (Nat.eqb_eq _ _) Hl). reflexivity. Qed.
+
+Lemma sertel_length_mismatch o1 o2 : length o1 <> length o2 -> sertel o1 o2 = Err ValueErr.
+Proof.
+  intros H. unfold sertel.
+  destruct (Nat.eqb_spec (length o1) (length o2)); [contradiction|reflexivity].
+Qed.
+
+(* holds for all pairs of lists, also of different length *)
+Lemma sertel_sym o1 o2 : sertel o1 o2 = sertel o2 o1.
+Proof.
+  destruct (Nat.eq_dec (length o1) (length o2)) as [Hl|Hl].
+  - rewrite (sertel_ok o1 o2 Hl), (sertel_ok o2 o1 (eq_sym Hl)).
+    rewrite (sertel_j_sym o1 o2 Hl), Hl. reflexivity.
+  - rewrite sertel_length_mismatch by exact Hl.
+    rewrite sertel_length_mismatch by (intros E; apply Hl; symmetry; exact E). reflexivity.
+Qed.
+
+Lemma sertel_zero_iff o1 o2 : Permutation o1 o2 ->
+  ((exists den, sertel o1 o2 = Ok (0, den)) <-> o1 = o2).
+Proof.
+  intros Hp. pose proof (Permutation_length Hp) as Hl. rewrite (sertel_ok o1 o2 Hl). split.
+  - intros [den H]. injection H as Hz _. unfold sertel_j in Hz.
+    destruct (first_diff o1 o2) as [j|] eqn:E.
+    + exfalso. pose proof (first_diff_Some _ _ _ E) as (A & _).
+      apply (first_diff_last o1 o2 j E); [lia|exact Hp].
+    + apply first_diff_None; assumption.
+  - intros <-. exists (length o1 - 1). unfold sertel_j. rewrite first_diff_refl, Nat.sub_diag. reflexivity.
+Qed.
+
+Lemma sertel_range o1 o2 : length o1 = length o2 -> 2 <= length o1 ->
+  exists num den, sertel o1 o2 = Ok (num, den) /\ 0 < den /\ num <= den.
+Proof.
+  intros Hl H2. exists (length o1 - 1 - sertel_j o1 o2), (length o1 - 1).
+  split; [apply sertel_ok; exact Hl|]. lia.
+Qed.
+
+(* ------------------------------------------------------------------------------------------ *)
+(** * distance_matrix and expand_profile *)
+
+Lemma nth_map_lt {X Y} (f : X -> Y) l i d d' : i < length l -> nth i (map f l) d' = f (nth i l d).
+Proof.
+  intros H. rewrite (nth_indep _ d' (f d)) by (rewrite map_length; exact H). apply map_nth.
+Qed.
+
+Lemma nth_combine_seq {X} (l : list X) i d : i < length l ->
+  nth i (combine (seq 0 (length l)) l) (0, d) = (i, nth i l d).
+Proof.
+  intros H. rewrite combine_nth by apply seq_length. rewrite seq_nth by exact H. reflexivity.
+Qed.
+
+Lemma combine_seq_length {X} (l : list X) : length (combine (seq 0 (length l)) l) = length l.
+Proof. rewrite combine_length, seq_length. apply Nat.min_id. Qed.
+
+Section DM.
+  Context {T D : Type} (zero : D) (d : T -> T -> D).
+
+  Lemma dm_length profile : length (distance_matrix zero d profile) = length profile.
+  Proof. unfold distance_matrix. rewrite map_length. apply combine_seq_length. Qed.
+
+  Lemma dm_row profile i dflt : i < length profile ->
+    nth i (distance_matrix zero d profile) [] =
+    map (fun jq => if i =? fst jq then zero else d (nth i profile dflt) (snd jq))
+        (combine (seq 0 (length profile)) profile).
+  Proof.
+    intros Hi. unfold distance_matrix.
+    rewrite (nth_map_lt _ _ i (0, dflt)) by (rewrite combine_seq_length; exact Hi).
+    rewrite nth_combine_seq by exact Hi. reflexivity.
+  Qed.
+
+  Lemma dm_row_length profile i : i < length profile ->
+    length (nth i (distance_matrix zero d profile) []) = length profile.
+  Proof.
+    intros Hi. destruct profile as [|t0 ts]; [cbn in Hi; lia|].
+    rewrite (dm_row _ i t0 Hi), map_length. apply combine_seq_length.
+  Qed.
+
+  Lemma dm_entry profile i j dflt : i < length profile -> j < length profile ->
+    nth j (nth i (distance_matrix zero d profile) []) zero =
+    if i =? j then zero else d (nth i profile dflt) (nth j profile dflt).
+  Proof.
+    intros Hi Hj. rewrite (dm_row _ i dflt Hi).
+    rewrite (nth_map_lt _ _ j (0, dflt)) by (rewrite combine_seq_length; exact Hj).
+    rewrite nth_combine_seq by exact Hj. reflexivity.
+  Qed.
+
+  Lemma dm_sym profile i j :
+    (forall a b, In a profile -> In b profile -> d a b = d b a) ->
+    i < length profile -> j < length profile ->
+    nth j (nth i (distance_matrix zero d profile) []) zero =
+    nth i (nth j (distance_matrix zero d profile) []) zero.
+  Proof.
+    intros Hd Hi Hj. destruct profile as [|t0 ts] eqn:Ep; [cbn in Hi; lia|]. rewrite <- Ep in *.
+    rewrite (dm_entry _ i j t0 Hi Hj), (dm_entry _ j i t0 Hj Hi), (Nat.eqb_sym j i).
+    destruct (i =? j); [reflexivity|]. apply Hd; apply nth_In; assumption.
+  Qed.
+
+  Lemma dm_spec profile :
+    length (distance_matrix zero d profile) = length profile /\
+    (forall i, i < length profile -> length (nth i (distance_matrix zero d profile) []) = length profile) /\
+    (forall i, i < length profile -> nth i (nth i (distance_matrix zero d profile) []) zero = zero) /\
+    (forall i j dflt, i < length profile -> j < length profile -> i <> j ->
+       nth j (nth i (distance_matrix zero d profile) []) zero = d (nth i profile dflt) (nth j profile dflt)) /\
+    ((forall a b, In a profile -> In b profile -> d a b = d b a) ->
+     forall i j, i < length profile -> j < length profile ->
+       nth j (nth i (distance_matrix zero d profile) []) zero =
+       nth i (nth j (distance_matrix zero d profile) []) zero).
+  Proof.
+    split; [apply dm_length|]. split; [apply dm_row_length|]. split; [|split].
+    - intros i Hi. destruct profile as [|t0 ts] eqn:Ep; [cbn in Hi; lia|]. rewrite <- Ep in *.
+      rewrite (dm_entry _ i i t0 Hi Hi), Nat.eqb_refl. reflexivity.
+    - intros i j dflt Hi Hj Hne. rewrite (dm_entry _ i j dflt Hi Hj).
+      destruct (Nat.eqb_spec i j); [contradiction|reflexivity].
+    - intros Hd i j. apply dm_sym. exact Hd.
+  Qed.
+End DM.
+
+Section Expand.
+  Context {T : Type} (dec : forall x y : T, {x = y} + {x <> y}).
+
+  Lemma expand_cons (o : T) k (p : list (T * N)) :
+    expand_profile ((o, k) :: p) = repeat o (N.to_nat k) ++ expand_profile p.
+  Proof. reflexivity. Qed.
+
+  Lemma expand_length (p : list (T * N)) :
+    length (expand_profile p) = list_sum (map (fun om => N.to_nat (snd om)) p).
+  Proof.
+    induction p as [|[o k] p IH]; [reflexivity|].
+    rewrite expand_cons, app_length, repeat_length, IH. reflexivity.
+  Qed.
+
+  Lemma expand_In (p : list (T * N)) o :
+    In o (expand_profile p) <-> exists k, In (o, k) p /\ (0 < k)%N.
+  Proof.
+    induction p as [|[o' k'] p IH].
+    - cbn. split; [intros []|intros (k & [] & _)].
+    - rewrite expand_cons, in_app_iff, IH. split.
+      + intros [H|(k & Hk & Hpos)].
+        * pose proof (repeat_spec _ _ _ H) as ->. exists k'. split; [left; reflexivity|].
+          destruct (N.to_nat k') eqn:E; [destruct H|lia].
+        * exists k. split; [right; exact Hk|exact Hpos].
+      + intros (k & [Hk|Hk] & Hpos).
+        * injection Hk as -> ->. left. destruct (N.to_nat k) eqn:E; [lia|]. left. reflexivity.
+        * right. exists k. split; assumption.
+  Qed.
+
+  Lemma expand_count_notin (p : list (T * N)) o :
+    ~ In o (map fst p) -> count_occ dec (expand_profile p) o = 0.
+  Proof.
+    induction p as [|[o' k'] p IH]; intros H; [reflexivity|].
+    rewrite expand_cons, count_occ_app. cbn [map fst In] in H.
+    rewrite count_occ_repeat_neq by (intros ->; apply H; left; reflexivity).
+    apply IH. intros Hin. apply H. right. exact Hin.
+  Qed.
+
+  (* each order occurs in the full profile exactly as many times as its multiplicity *)
+  Lemma expand_count (p : list (T * N)) o k :
+    NoDup (map fst p) -> In (o, k) p -> count_occ dec (expand_profile p) o = N.to_nat k.
+  Proof.
+    induction p as [|[o' k'] p IH]; intros Hnd Hin; [destruct Hin|].
+    cbn [map fst] in Hnd. inversion Hnd as [|? ? Hn Hnd']; subst.
+    rewrite expand_cons, count_occ_app. destruct Hin as [E|Hin].
+    - injection E as -> ->. rewrite count_occ_repeat_eq by reflexivity.
+      rewrite expand_count_notin by exact Hn. lia.
+    - assert (o <> o') by (intros ->; apply Hn; apply (in_map fst _ _ Hin)).
+      rewrite count_occ_repeat_neq by assumption. apply IH; assumption.
+  Qed.
+End Expand.
